@@ -77,6 +77,10 @@ def tasks(tier):
             for o, d, p in cfgs:
                 ts.append(("%s(order=%d,dim=%d,permute=%s)" % (cn, o, d, p), "run_class",
                            dict(modname=mn, clsname=cn, lagrange=(o, d, p))))
+            # a reference interval other than (-1, 1): the derivative carries the chain-rule factor of the interval map
+            for o, d, p, iv in ((2, 1, False, (0, 1)), (3, 2, True, (0, 1)), (2, 2, False, (-2, 5)), (2, 3, True, (0, 1))):
+                ts.append(("%s(order=%d,dim=%d,permute=%s,interval=%s)" % (cn, o, d, p, iv), "run_class",
+                           dict(modname=mn, clsname=cn, lagrange=(o, d, p, iv))))
         else:
             ts.append((cn, "run_class", dict(modname=mn, clsname=cn, lagrange=None)))
     ts.append(("discovery", "run_discovery", dict(expected=[c for _, c in found])))
@@ -106,9 +110,13 @@ def run_class(col, modname, clsname, lagrange):
     cls = it.get(modname + ":" + clsname)
     bm = sym("bubble_multiplier")
     if lagrange is not None:
-        order, dim, permute = lagrange
-        el = it.call(cls, [], dict(order=order, dim=dim, permute=permute))
+        order, dim, permute = lagrange[:3]
+        kw = dict(order=order, dim=dim, permute=permute)
         label = "%s(order=%d,dim=%d,permute=%s)" % (clsname, order, dim, permute)
+        if len(lagrange) > 3:
+            kw["interval"] = tuple(lagrange[3])
+            label = label[:-1] + ",interval=%s)" % (tuple(lagrange[3]),)
+        el = it.call(cls, [], kw)
         space, degree = "tensor", order
         bubble = False
     else:
